@@ -5,7 +5,7 @@ use precis_profiles::{Nickname, OpaqueString, UsernameCaseMapped, UsernameCasePr
 use precis_tools::{
     BidiClassGen, CsvLineParser, DerivedProperties, DerivedProperty, GeneralCategoryGen,
     PrecisDerivedProperty, RustCodeGen, UcdFileGen, UcdTableGen, UnassignedTableGen, ViramaTableGen,
-    WidthMappingTableGen,
+    WidthMappingTableGen, DerivedJoiningType, HangulSyllableType, UnicodeGen,
 };
 use std::path::Path;
 use std::str::FromStr;
@@ -101,6 +101,36 @@ pub fn ucdgen(args: &[String]) {
         ucd_gen.add(Box::new(gc_gen));
         gen.add(Box::new(ucd_gen));
         gen.generate_code()?;
+        // property files (Scripts, DerivedJoiningType, PropList, DerivedCoreProperties, HangulSyllableType): the
+        // UcdTableGen instances the core build script uses, through UnicodeGen<T>
+        if ucd.join("Scripts.txt").exists() {
+            let mut gen = RustCodeGen::new(out.join("props.rs"))?;
+            let mut ucd_gen = UcdFileGen::new(ucd);
+            let mut script_gen: UnicodeGen<ucd_parse::Script> = UnicodeGen::new();
+            for (a, b) in [("Greek", "s_greek"), ("Hebrew", "s_hebrew"), ("Han", "s_han")] {
+                script_gen.add(Box::new(UcdTableGen::new(a, b)));
+            }
+            let mut djt_gen: UnicodeGen<DerivedJoiningType> = UnicodeGen::new();
+            for (a, b) in [("D", "j_d"), ("L", "j_l"), ("R", "j_r"), ("T", "j_t")] {
+                djt_gen.add(Box::new(UcdTableGen::new(a, b)));
+            }
+            let mut prop_gen: UnicodeGen<ucd_parse::Property> = UnicodeGen::new();
+            prop_gen.add(Box::new(UcdTableGen::new("Join_Control", "p_jc")));
+            prop_gen.add(Box::new(UcdTableGen::new("Noncharacter_Code_Point", "p_nc")));
+            let mut core_gen: UnicodeGen<ucd_parse::CoreProperty> = UnicodeGen::new();
+            core_gen.add(Box::new(UcdTableGen::new("Default_Ignorable_Code_Point", "c_di")));
+            let mut hst_gen: UnicodeGen<HangulSyllableType> = UnicodeGen::new();
+            for (a, b) in [("L", "h_l"), ("V", "h_v"), ("T", "h_t")] {
+                hst_gen.add(Box::new(UcdTableGen::new(a, b)));
+            }
+            ucd_gen.add(Box::new(script_gen));
+            ucd_gen.add(Box::new(djt_gen));
+            ucd_gen.add(Box::new(prop_gen));
+            ucd_gen.add(Box::new(core_gen));
+            ucd_gen.add(Box::new(hst_gen));
+            gen.add(Box::new(ucd_gen));
+            gen.generate_code()?;
+        }
         Ok(())
     });
     match r {
